@@ -74,6 +74,13 @@ def gen(rng, neutral=False):
             v = rng.choice(bad)
             col["values"][rng.randrange(len(col["values"]))] = int(v) if col["phys"] == "int64" else v
             muts.append(("frame_check", col["name"]))
+        if rng.random() < 0.5 and len(col["values"]) >= 2 and not C.has_dup_labels(table):
+            # joint uniqueness violated as well (wide failure cases)
+            spec["unique"] = [col["name"]]
+            spec["report_duplicates"] = rng.choice(["all", "exclude_first", "exclude_last"])
+            i, j = rng.sample(range(len(col["values"])), 2)
+            col["values"][j] = col["values"][i]
+            muts.append(("joint_unique_dup", col["name"]))
         if not spec.get("index") and rng.random() < 0.7:
             n2 = len(col["values"])
             table["index"] = {"levels": [
